@@ -1,6 +1,7 @@
 package core
 
 import (
+	"go/token"
 	"go/types"
 	"regexp"
 
@@ -20,6 +21,8 @@ var (
 	RetTrue  = RetSpec{-1, "true"}
 	RetFalse = RetSpec{-1, "false"}
 	RetAny   = RetSpec{-1, "any"}
+	// RetNilConst selects only returns whose error operand is the literal nil
+	RetNilConst = RetSpec{-1, "nilconst"}
 )
 
 // RetSink is one way a function can return the outcome of interest.
@@ -82,6 +85,11 @@ func (w *World) classifyRet(v ssa.Value, want string, at *ssa.BasicBlock) (yes b
 	switch want {
 	case "any":
 		return true, false, nil
+	case "nilconst":
+		if isNilConst(v) {
+			return true, false, nil
+		}
+		return false, true, nil
 	case "nil", "nonnil":
 		isNil := isNilConst(v)
 		nonNil := !isNil && w.knownNonNil(v, at)
@@ -139,7 +147,7 @@ func (w *World) ReturnSinks(fn *ssa.Function, spec RetSpec) []RetSink {
 		if idx < 0 || idx >= len(ret.Results) {
 			continue
 		}
-		v := ret.Results[idx]
+		v := resolveSpilled(ret, ret.Results[idx])
 		if phi, ok := v.(*ssa.Phi); ok && phi.Block() == b {
 			for i, e := range phi.Edges {
 				yes, no, lit := w.classifyRet(e, spec.Want, b.Preds[i])
@@ -175,4 +183,31 @@ func (w *World) RetGuarded(s RetSink, g Gate) bool {
 		return !EdgeReachable(s.Pred, s.Ret.Block(), c)
 	}
 	return !InstrReachable(s.Ret, c)
+}
+
+// resolveSpilled sees through "defer-spilled" named results: `store &r = v; return *&r`.
+// The last store to the result slot in the returning block (or, failing that, in the chain of
+// single predecessors) is the returned value.
+func resolveSpilled(ret *ssa.Return, v ssa.Value) ssa.Value {
+	ld, ok := v.(*ssa.UnOp)
+	if !ok || ld.Op != token.MUL {
+		return v
+	}
+	a, ok := ld.X.(*ssa.Alloc)
+	if !ok {
+		return v
+	}
+	b := ret.Block()
+	for hops := 0; b != nil && hops < 8; hops++ {
+		for i := len(b.Instrs) - 1; i >= 0; i-- {
+			if st, ok := b.Instrs[i].(*ssa.Store); ok && st.Addr == ssa.Value(a) {
+				return st.Val
+			}
+		}
+		if len(b.Preds) != 1 {
+			break
+		}
+		b = b.Preds[0]
+	}
+	return v
 }
